@@ -599,6 +599,44 @@ pub fn run(args: &Args) -> ! {
         total.runs += n;
         *total.by_kind.entry("pipe-closed-after-k-bytes".into()).or_insert(0) += n;
         total.disc.extend(disc);
+        // the consumer is gone before ripgrep writes anything, and the whole
+        // output is smaller than any buffer (the write only fails when the
+        // output is flushed at the very end): rg is started 0.3 s after the
+        // read end of its stdout was closed
+        let small = scratch.path.join("pipe-small");
+        std::fs::create_dir_all(&small).unwrap();
+        std::fs::write(small.join("s1.txt"), "needle\nhay\n").unwrap();
+        std::fs::write(small.join("s2.txt"), "hay\n").unwrap();
+        let gone: Vec<Vec<&str>> = vec![
+            vec!["-j1", "needle"], vec!["-j2", "needle"], vec!["-j1", "--passthru", "zzz"], vec!["-j2", "--passthru", "zzz"], vec!["-j1", "-c", "--include-zero", "zzz"],
+            vec!["-j2", "-c", "--include-zero", "zzz"], vec!["-j1", "--files"], vec!["-j1", "--sort", "path", "--files-without-match", "needle"],
+        ];
+        for v in gone.iter() {
+            let mut child = Command::new("sh")
+                .current_dir(&small)
+                .arg("-c")
+                .arg("sleep 0.3; exec \"$0\" \"$@\"")
+                .arg(&rg)
+                .arg("--no-config")
+                .args(v)
+                .stdin(Stdio::null())
+                .stdout(Stdio::piped())
+                .stderr(Stdio::piped())
+                .spawn()
+                .unwrap_or_else(|_| machinery_error("sh"));
+            drop(child.stdout.take());
+            let mut se = String::new();
+            let _ = child.stderr.take().unwrap().read_to_string(&mut se);
+            let st = child.wait().map(|s| s.code().unwrap_or(-1)).unwrap_or(-1);
+            total.runs += 1;
+            *total.by_kind.entry("pipe-closed-before-start".into()).or_insert(0) += 1;
+            if st != 0 || !se.is_empty() {
+                total.disc.push((
+                    format!("pipe-closed | {:?} | before ripgrep wrote anything (small output)", v),
+                    json!({"kind":"pipe-closed-before-start","args":v,"status":st,"stderr":se}),
+                ));
+            }
+        }
     }
 
     for (k, v) in total.disc.iter() {
@@ -618,7 +656,7 @@ pub fn run(args: &Args) -> ! {
     ev.set("faults_by_kind", json!(total.by_kind));
     ev.set(
         "rule",
-        "real rg binary on 3 trees (mixed / all files match / none matches) x 6 modes (standard, -c, -l, -q, --files, --json) x -j1 and -j2 (the latter under the replay scheduler's default schedule so that 'the k-th call' is well defined): the run is repeated under `strace -e inject=<syscall>:error=<E>:when=k` for EVERY k up to the number of such calls in the fault-free run, for openat->EACCES, openat->ENOENT, read->EIO, getdents64->EACCES, write->EPIPE; the injected call's path is recovered from the strace log (faults on start-up files are skipped). Decision table: a fault on a tree path => a diagnostic naming it on stderr, exit status 2 (0 allowed for -q with a match), the other files' results identical to the fault-free run; EPIPE on stdout => status 0, empty stderr, no further file opened (promptly). Plus: 61 invalid argument sets (regex, pattern file, engine, globs for -g / --iglob / --pre-glob with and without a preprocessor, types, encoding, numbers, sizes, sort / colour / hyperlink choices, unknown flags, under --files / -c / -l / --json) => status 2, a diagnostic and empty stdout; 11 rows of arguments coming from a RIPGREP_CONFIG_PATH file (special modes, invalid flags and values: the documented status, never a crash); real faults as uid 65534 (mode-000 file and directory, dangling symlinks, a symlink loop under -L, entries of a list-only directory with and without --max-filesize, a preprocessor failing silently, missing paths, -q, -q --stats, -q --json and --no-messages variants); the stdout consumer closing after k bytes for every k up to 120 (400) and around every buffer boundary, in 13 variants (-j1/-j2, --line-buffered, --files, -c, --json, --pre cat at -j1 and -j2, -z with gzip files, transcoding, --passthru with a pattern that matches nothing at -j1 and -j2) => status 0 and no diagnostic.",
+        "real rg binary on 3 trees (mixed / all files match / none matches) x 6 modes (standard, -c, -l, -q, --files, --json) x -j1 and -j2 (the latter under the replay scheduler's default schedule so that 'the k-th call' is well defined): the run is repeated under `strace -e inject=<syscall>:error=<E>:when=k` for EVERY k up to the number of such calls in the fault-free run, for openat->EACCES, openat->ENOENT, read->EIO, getdents64->EACCES, write->EPIPE; the injected call's path is recovered from the strace log (faults on start-up files are skipped). Decision table: a fault on a tree path => a diagnostic naming it on stderr, exit status 2 (0 allowed for -q with a match), the other files' results identical to the fault-free run; EPIPE on stdout => status 0, empty stderr, no further file opened (promptly). Plus: 61 invalid argument sets (regex, pattern file, engine, globs for -g / --iglob / --pre-glob with and without a preprocessor, types, encoding, numbers, sizes, sort / colour / hyperlink choices, unknown flags, under --files / -c / -l / --json) => status 2, a diagnostic and empty stdout; 11 rows of arguments coming from a RIPGREP_CONFIG_PATH file (special modes, invalid flags and values: the documented status, never a crash); real faults as uid 65534 (mode-000 file and directory, dangling symlinks, a symlink loop under -L, entries of a list-only directory with and without --max-filesize, a preprocessor failing silently, missing paths, -q, -q --stats, -q --json and --no-messages variants); the stdout consumer closing after k bytes for every k up to 120 (400) and around every buffer boundary, in 13 variants (-j1/-j2, --line-buffered, --files, -c, --json, --pre cat at -j1 and -j2, -z with gzip files, transcoding, --passthru with a pattern that matches nothing at -j1 and -j2) => status 0 and no diagnostic; and eight small-output runs whose consumer is gone before ripgrep starts (the write only fails at the final flush) => the same.",
     );
     ev.set("samples", json!([{"tree": "mixed", "mode": "standard", "fault": "openat:error=EACCES:when=17 (d/c.txt)"}, {"pipe": "rg -j1 --line-buffered needle, consumer closes after 37 bytes"}]));
     ev.assume("strace's fault injector; setpriv to drop root so that mode 000 is effective");
